@@ -21,16 +21,20 @@ Print Assumptions C02_reachable_state_inv.
    that amount and keeps its live_until ([spender_path], spelled out:
      0 < amt /\ amt <= allowance.amount /\ now <= allowance.live_until /\
      allowance' = (allowance.amount - amt, allowance.live_until)).
-   Apart from that only the RWA token's supervisory operations can debit. *)
+   In every case only the account NAMED by the call is debited, and by at most the amount the call
+   names (the amount charged to the allowance).  Apart from that only the RWA token's supervisory
+   operations debit - in the RWA flavour only, the named account only, at most the named amount. *)
 Theorem C02_debit_needs_auth : forall c s cl s' v evs a, wf_cfg c = true -> state_inv s ->
   exec c s cl = Ok (s', v, evs) -> balance (tk s') a < balance (tk s) a ->
+  let debit := balance (tk s) a - balance (tk s') a in
   match cl with
-  | Transfer au f _ _ _ | Burn au f _ => a = f /\ has_auth au a = true
+  | Transfer au f _ _ amt | Burn au f amt => a = f /\ has_auth au a = true /\ debit <= amt
   | TransferFrom au sp f _ amt | BurnFrom au sp f amt =>
-      a = f /\ has_auth au sp = true /\ spender_path s s' f sp amt
-  | VWithdraw au _ _ o op => a = o /\ has_auth au op = true /\ (op = o \/ spender_path s s' o op v)
-  | VRedeem au sh _ o op => a = o /\ has_auth au op = true /\ (op = o \/ spender_path s s' o op sh)
-  | RForcedTransfer _ _ _ | RBurn _ _ | RRecover _ _ => True
+      a = f /\ has_auth au sp = true /\ spender_path s s' f sp amt /\ debit <= amt
+  | VWithdraw au _ _ o op => a = o /\ has_auth au op = true /\ (op = o \/ spender_path s s' o op v) /\ debit <= v
+  | VRedeem au sh _ o op => a = o /\ has_auth au op = true /\ (op = o \/ spender_path s s' o op sh) /\ debit <= sh
+  | RForcedTransfer f _ amt | RBurn f amt => c_flav c = FRwa /\ a = f /\ debit <= amt
+  | RRecover old _ => c_flav c = FRwa /\ a = old
   | _ => False
   end.
 Proof. exact debit_needs_auth. Qed.
@@ -124,9 +128,37 @@ Example C02_nonvacuous :
   check (model_trace (ex_cfg FBase) ex_univ 100 ex_calls) = (0%N, 0%N, 0%N).
 Proof. vm_compute. repeat split. Qed.
 
-(* the monitor rejects bad traces: take the model's own trace and corrupt one item *)
+(* ---- non-vacuity of the vault-operator and RWA branches ---- *)
+Definition cf (f : flavour) (off : Z) : cfg := {| c_host := default_cfg 200; c_flav := f; c_self := 3%N; c_offset := off |}.
+Definition vault_calls : list call :=
+  [AssetMint 0%N 1000; VDeposit [0%N] [0%N] 100 0%N 0%N 0%N; Approve [0%N] 0%N 1%N 60000 150;
+   VRedeem [1%N] 20000 1%N 0%N 1%N; VWithdraw [1%N] 10 2%N 0%N 1%N; VRedeem [0%N] 5000 0%N 0%N 0%N;
+   VRedeem [2%N] 1 2%N 0%N 2%N; VWithdraw [0%N] 1 1%N 0%N 1%N; Advance 60; VRedeem [1%N] 1 1%N 0%N 1%N].
+Example C02_nonvacuous_vault_operator :
+  let sg := run_g (cf FVault 3) (init 100) ghost0 vault_calls in
+  map (fun it => is_ok (snd (fst (fst it)))) (t_items (model_trace (cf FVault 3) ex_univ 100 vault_calls))
+    = [true; true; true; true; true; true; false; false; true; false] /\
+  capd (snd sg) (0%N, 1%N) = allowance 150 (tk (fst sg)) 0%N 1%N /\ 0 < capd (snd sg) (0%N, 1%N) < 40000 /\
+  allowance (now (fst sg)) (tk (fst sg)) 0%N 1%N = 0 /\
+  check (model_trace (cf FVault 3) ex_univ 100 vault_calls) = (0%N, 0%N, 0%N).
+Proof. vm_compute. repeat split. Qed.
+Definition rwa_calls : list call :=
+  [Mint 0%N 100; Mint 1%N 50; RForcedTransfer 0%N 2%N 30; RBurn 1%N 10; RSetRecovery 1%N 2%N; RRecover 1%N 2%N;
+   Approve [0%N] 0%N 1%N 20 150; TransferFrom [1%N] 1%N 0%N 2%N 5; TransferFrom [0%N] 1%N 0%N 2%N 5; Transfer [] 0%N 1%N None 1].
+Example C02_nonvacuous_rwa :
+  let s := run (cf FRwa 0) (init 100) rwa_calls in
+  map (fun it => is_ok (snd (fst (fst it)))) (t_items (model_trace (cf FRwa 0) ex_univ 100 rwa_calls))
+    = [true; true; true; true; true; true; true; true; false; false] /\
+  balance (tk s) 0%N = 65 /\ balance (tk s) 2%N = 75 /\ allowance 100 (tk s) 0%N 1%N = 15 /\
+  check (model_trace (cf FRwa 0) ex_univ 100 rwa_calls) = (0%N, 0%N, 0%N) /\
+  (* on any other flavour the supervisory operations do not exist *)
+  step (cf FBase 0) (run (cf FBase 0) (init 100) [Mint 0%N 100]) (RForcedTransfer 0%N 2%N 30) = (run (cf FBase 0) (init 100) [Mint 0%N 100], Fail, []).
+Proof. vm_compute. repeat split. Qed.
+
+(* ---- the monitor rejects bad traces ---- *)
+(* (a) the model's own trace with one item corrupted *)
 Definition corrupt (f : item -> item) (k : nat) (t : trace) : trace :=
-  {| t_cfg := t_cfg t; t_univ := t_univ t; t_start := t_start t;
+  {| t_cfg := t_cfg t; t_univ := t_univ t; t_start := t_start t; t_init := t_init t;
      t_items := firstn k (t_items t) ++ match skipn k (t_items t) with [] => [] | it :: r => f it :: r end |}.
 Definition ex_trace : trace := model_trace (ex_cfg FBase) ex_univ 100 ex_calls.
 Definition set_auths (cl : call) (au : list addr) : call :=
@@ -181,6 +213,65 @@ Example C02_monitor_rejects_state_lapsing_over_time :
      (cl, out, evs, {| o_now := o_now o; o_supply := o_supply o; o_bal := o_bal o;
                        o_allow := []; o_extra := o_extra o |})) 6 ex_trace) = 7%N /\
   c02_monitor (corrupt (fun '(cl, out, evs, o) =>
-     (cl, out, evs, {| o_now := o_now o; o_supply := o_supply o; o_bal := alist_set 0%N 0 (o_bal o);
+     (cl, out, evs, {| o_now := o_now o; o_supply := o_supply o; o_bal := map (fun x => if N.eqb (fst x) 0%N then (0%N, 0) else x) (o_bal o);
                        o_allow := o_allow o; o_extra := o_extra o |})) 6 ex_trace) = 7%N.
 Proof. vm_compute. split; reflexivity. Qed.
+
+(* (b) hand-written traces (from the adversarial review of this check) *)
+Definition mk (now sup : Z) (b : list (addr * Z)) (al : list (pkey * (Z * Z * Z))) : obs :=
+  {| o_now := now; o_supply := sup; o_bal := b; o_allow := al; o_extra := [] |}.
+Definition mkx (now sup : Z) (b : list (addr * Z)) (al : list (pkey * (Z * Z * Z))) (x : list Z) : obs :=
+  {| o_now := now; o_supply := sup; o_bal := b; o_allow := al; o_extra := x |}.
+Definition B (a b c : Z) : list (addr * Z) := [(0%N, a); (1%N, b); (2%N, c); (3%N, 0)].
+Definition TF (f : flavour) (x0 : list Z) (its : list item) : trace :=
+  {| t_cfg := cf f 0; t_univ := ex_univ; t_start := 100; t_init := mkx 100 0 (B 0 0 0) [] x0; t_items := its |}.
+Definition T := TF FBase [].
+Definition mint100 : item := (Mint 0%N 100, Ok 0, [EMint 0%N 100], mk 100 100 (B 100 0 0) []).
+Definition appr40 : item := (Approve [0%N] 0%N 1%N 40 120, Ok 0, [EApprove 0%N 1%N 40 120], mk 100 100 (B 100 0 0) [((0%N,1%N),((40,120),120))]).
+
+(* (9) the SIZE of the debit is bounded by the amount the call names (= what the allowance is charged):
+   a zero-amount transfer_from / burn_from without any allowance that drains the holder, a spend of 5
+   that debits 100, a vault withdraw by an operator returning 0 shares that burns 50 *)
+Example C02_monitor_rejects_debit_larger_than_amount :
+  c02_why (T [mint100; (TransferFrom [1%N] 1%N 0%N 2%N 0, Ok 0, [ETransfer 0%N 2%N None 0], mk 100 100 (B 50 0 50) [])]) = (2%N, 1%N) /\
+  c02_why (T [mint100; (Approve [0%N] 0%N 1%N 5 150, Ok 0, [EApprove 0%N 1%N 5 150], mk 100 100 (B 100 0 0) [((0%N,1%N),((5,150),150))]);
+              (TransferFrom [1%N] 1%N 0%N 2%N 5, Ok 0, [ETransfer 0%N 2%N None 5], mk 100 100 (B 0 0 100) [((0%N,1%N),((0,150),150))])]) = (3%N, 1%N) /\
+  c02_why (T [mint100; (BurnFrom [1%N] 1%N 0%N 0, Ok 0, [EBurn 0%N 0], mk 100 0 (B 0 0 0) [])]) = (2%N, 1%N) /\
+  c02_why (TF FVault [0;0;0;0] [ (AssetMint 0%N 100, Ok 0, [], mkx 100 0 (B 0 0 0) [] [100;0;0;0]);
+      (VDeposit [0%N] [0%N] 100 0%N 0%N 0%N, Ok 100, [EDeposit 0%N 0%N 0%N 100 100], mkx 100 100 (B 100 0 0) [] [0;0;0;100]);
+      (VWithdraw [1%N] 0 1%N 0%N 1%N, Ok 0, [EWithdraw 1%N 1%N 0%N 0 0], mkx 100 50 (B 50 0 0) [] [0;50;0;50]) ]) = (3%N, 1%N) /\
+  (* also for a holder-signed transfer *)
+  c02_why (T [mint100; (Transfer [0%N] 0%N 2%N None 5, Ok 0, [ETransfer 0%N 2%N None 5], mk 100 100 (B 0 0 100) [])]) = (2%N, 1%N).
+Proof. vm_compute. repeat split. Qed.
+(* (10) the supervisory exemption covers the RWA flavour, the named account and the named amount only *)
+Example C02_monitor_rejects_supervisory_overreach :
+  c02_why (T [mint100; (RForcedTransfer 1%N 2%N 0, Ok 0, [], mk 100 100 (B 0 0 100) [])]) = (2%N, 1%N) /\
+  c02_why (T [mint100; (RForcedTransfer 0%N 2%N 100, Ok 0, [ETransfer 0%N 2%N None 100], mk 100 100 (B 0 0 100) [])]) = (2%N, 1%N) /\
+  c02_why (TF FRwa [0;0;0;0;0;0;0;0;0] [ (Mint 0%N 100, Ok 0, [EMint 0%N 100], mkx 100 100 (B 100 0 0) [] [0;0;0;0;0;0;0;0;0]);
+      (Mint 2%N 100, Ok 0, [EMint 2%N 100], mkx 100 200 (B 100 0 100) [] [0;0;0;0;0;0;0;0;0]);
+      (RBurn 1%N 0, Ok 0, [EBurn 1%N 0], mkx 100 0 (B 0 0 0) [] [0;0;0;0;0;0;0;0;0]) ]) = (3%N, 1%N) /\
+  c02_why (TF FRwa [0;0;0;0;0;0;0;0;0] [ (Mint 0%N 100, Ok 0, [EMint 0%N 100], mkx 100 100 (B 100 0 0) [] [0;0;0;0;0;0;0;0;0]);
+      (RBurn 0%N 10, Ok 0, [EBurn 0%N 10], mkx 100 60 (B 60 0 0) [] [0;0;0;0;0;0;0;0;0]) ]) = (2%N, 1%N) /\
+  (* the legitimate one is accepted *)
+  c02_why (TF FRwa [0;0;0;0;0;0;0;0;0] [ (Mint 0%N 100, Ok 0, [EMint 0%N 100], mkx 100 100 (B 100 0 0) [] [0;0;0;0;0;0;0;0;0]);
+      (RBurn 0%N 10, Ok 0, [EBurn 0%N 10], mkx 100 90 (B 90 0 0) [] [0;0;0;0;0;0;0;0;0]) ]) = (0%N, 0%N).
+Proof. vm_compute. repeat split. Qed.
+(* (11) the public getters: allowance() must answer what is observed - in particular zero once live_until has passed *)
+Example C02_monitor_rejects_wrong_getter_answers :
+  c02_why (T [mint100; appr40; (Advance 21, Ok 0, [], mk 121 100 (B 100 0 0) []);
+              (QAllowance 0%N 1%N, Ok 40, [], mk 121 100 (B 100 0 0) [])]) = (4%N, 6%N) /\
+  c02_why (T [mint100; appr40; (QAllowance 0%N 1%N, Ok 40, [], mk 100 100 (B 100 0 0) [((0%N,1%N),((40,120),120))])]) = (0%N, 0%N) /\
+  c02_why (T [mint100; (QBalance 0%N, Ok 99, [], mk 100 100 (B 100 0 0) [])]) = (2%N, 6%N).
+Proof. vm_compute. repeat split. Qed.
+(* (12) negative (sentinel) observations, an account outside the universe, a clock that moves inside a
+   call (full spend observed 10 ledgers after expiry), credits appearing across an Advance or in a failing call *)
+Example C02_monitor_rejects_malformed_or_drifting_observations :
+  c02_why (T [mint100; (Transfer [0%N] 0%N 2%N None 5, Ok 0, [ETransfer 0%N 2%N None 5], mk 100 100 (B (-7777777) 0 5) [])]) = (2%N, 6%N) /\
+  c02_why (T [mint100; appr40; (QSupply, Fail, [], mk 100 (-7777777) (B 100 0 0) [((0%N,1%N),((40,120),120))])]) = (3%N, 6%N) /\
+  c02_why {| t_cfg := cf FBase 0; t_univ := [1%N; 2%N]; t_start := 100; t_init := mk 100 0 [(1%N,0);(2%N,0)] [];
+             t_items := [ (Mint 0%N 100, Ok 0, [EMint 0%N 100], mk 100 100 [(1%N,0);(2%N,0)] []) ] |} = (1%N, 6%N) /\
+  c02_why (T [mint100; appr40; (TransferFrom [1%N] 1%N 0%N 2%N 40, Ok 0, [ETransfer 0%N 2%N None 40], mk 130 100 (B 60 0 40) [((0%N,1%N),((0,120),120))])]) = (3%N, 6%N) /\
+  c02_why (T [mint100; (Advance 5, Ok 0, [], mk 105 7 (B 100 900 0) [])]) = (2%N, 6%N) /\
+  c02_why (T [mint100; (Transfer [1%N] 0%N 2%N None 5, Fail, [], mk 100 100 (B 100 0 5) [])]) = (2%N, 6%N) /\
+  c02_why {| t_cfg := cf FBase 0; t_univ := ex_univ; t_start := 100; t_init := mk 100 0 (B 0 0 0) [((0%N,1%N),((40,120),120))]; t_items := [] |} = (1%N, 9%N).
+Proof. vm_compute. repeat split. Qed.
